@@ -1,10 +1,11 @@
 (* Trusted glue for the activation package (C19): parses one case per line, runs
    the extracted model, prints one canonical result line.
 
-   hist <max_pending> <services> <event>*        (histid: same, with entry ids in the output)
+   hist <max_pending>[/<max_replies>] <services> <event>*        (histid: same, with entry ids in the output)
      services: "-" or name:exec:kind joined by ","   name = w<k> | u<c>; kind 0 = Exec line does not parse, anything else = it does
      events:
-       C                                   a connection completes Hello
+       C | CF                              a connection completes Hello (CF: it negotiated unix-fd passing; likewise KF)
+                                           class = policy class (0-3) + 4 (carries a unix fd) + 8 (method call expecting a reply)
        K.<sid>                             the same, made by started process sid (no difference for the model)
        A.<c>.<serial>.<name>.<class>       message to <name>, auto-start allowed
        B.<c>.<serial>.<name>.<class>       the same sent as a directed SIGNAL (the bus does not look at the type before it auto-starts)
@@ -72,7 +73,7 @@ let parse_services (s : string) : service list =
 let err_name = function
   | EServiceUnknown -> "ServiceUnknown" | ENameHasNoOwner -> "NameHasNoOwner" | EAccessDenied -> "AccessDenied"
   | ELimitsExceeded -> "LimitsExceeded" | ESpawnInvalidArgs -> "InvalidArgs" | EChildExited -> "ChildExited"
-  | EChildSignaled -> "ChildSignaled" | EExecFailed -> "ExecFailed" | ETimedOut -> "TimedOut"
+  | EChildSignaled -> "ChildSignaled" | EExecFailed -> "ExecFailed" | ETimedOut -> "TimedOut" | ENotSupported -> "NotSupported"
 
 let show_out (ids : bool) (o : out) : string =
   let i = int_of_n in
@@ -89,8 +90,10 @@ let show_out (ids : bool) (o : out) : string =
 (* one token -> the events it stands for (the bare T depends on the state) *)
 let parse_events (st : state) (tok : string) : event list =
   match String.split_on_char '.' tok with
-  | ["C"] -> [EConnect]
-  | ["K"; _] -> [EConnect]
+  | ["C"] -> [EConnect false]
+  | ["CF"] -> [EConnect true]
+  | ["K"; _] -> [EConnect false]
+  | ["KF"; _] -> [EConnect true]
   | ["A"; c; s; n; cl] -> [ESend (ni c, ni s, parse_name n, false, ni cl)]
   | ["B"; c; s; n; cl] -> [ESend (ni c, ni s, parse_name n, false, ni cl)]
   | ["U"; c; s; n; cl] -> [ESend (ni c, ni s, parse_name n, true, ni cl)]
@@ -110,7 +113,8 @@ let parse_events (st : state) (tok : string) : event list =
 let run_hist (ids : bool) (args : string list) : string =
   match args with
   | maxp :: svcs :: evs ->
-      let cf = std_cfg (parse_services svcs) (ni maxp) in
+      let (mp, mr) = (match String.split_on_char '/' maxp with [a] -> (a, "1000") | [a; b] -> (a, b) | _ -> failwith "limits") in
+      let cf = std_cfg2 (parse_services svcs) (ni mp) (ni mr) in
       let st = ref (start cf) in
       let toks = List.map (fun tok ->
         let es = parse_events !st tok in
